@@ -35,4 +35,24 @@ PROPS = {
                    'comparing both dirty flags after every operation and every value read, bit for bit. A setter that stops raising a flag '
                    'makes the flags disagree; the search then compares the real object with a freshly built one.',
     ),
+    'C03': dict(
+        own_files=['Lemmas/LC03.v', 'Lemmas/LC03b.v', 'Props/C03.v'],
+        corr=[dict(script='corr_gen.py', n=200, n_thorough=4000,
+                   args=['Homogeneous.homogeneous_head_loss', 'Homogeneous.homogeneous_pressure_loss', 'Homogeneous.fluid_head_loss',
+                         'Homogeneous.fluid_pressure_loss', 'Homogeneous.Erhg', 'Heterogeneous.heterogeneous_head_loss',
+                         'Heterogeneous.heterogeneous_pressure_loss', 'Heterogeneous.Erhg', 'Stratified.sliding_bed_head_loss',
+                         'Stratified.sliding_bed_pressure_loss', 'Stratified.fb_head_loss', 'Stratified.fb_pressure_loss', 'Stratified.fb_Erhg',
+                         'WilsonStratified.stratified_head_loss', 'WilsonStratified.stratified_pressure_loss', 'WilsonStratified.Erhg',
+                         'WilsonV50.heterogeneous_head_loss', 'WilsonV50.heterogeneous_pressure_loss', 'WilsonV50.Erhg']),
+              dict(script='corr_slurry.py', n=24, n_thorough=300, args=['--parts', 'graded,curves,point,scalars'])],
+        search='C03.py', budget_quick=200, budget_thorough=6000,
+        partial=[],
+        level_text='Proof: for every regime model (homogeneous, heterogeneous, sliding bed, fixed bed, Wilson stratified, Wilson V50) the regenerated '
+                   'model satisfies im = Erhg*Rsd*Cv + il and dp = im*g*rhol for all reals (fixed bed under rhol <> 0, Rsd*Cv <> 0); in the model '
+                   'of the Slurry tables every im curve equals its Erhg curve*Rsd*Cv + il at every index, ELM = il*rhom, and il()/Erhg()/im() '
+                   'equal the tables at every tabulated speed; Erhg_graded equals an independently written specification (pseudo-liquid of Eqns '
+                   '8.15-3..7, geometric-mean diameters, fraction-weighted sum / (1-X)) for Cvs and Cvt input.',
+        level_note='Regime models are regenerated from the Python each run; the table and graded models are hand-written and compared bit for bit with '
+                   'Slurry.generate_curves (all keys, all indices) and Erhg_graded(get_dict=True) on generated objects. Theorems over exact reals.',
+    ),
 }
